@@ -85,8 +85,20 @@ def gen_expr(rng, depth, names):
         return ["or", [gen_expr(rng, depth - 1, names) for _ in range(rng.randint(2, 3))]]
     n = 1 if rng.random() < 0.7 else 2
 
-    def operand():
+    def atom():
         return ["n", rng.choice(names)] if rng.random() < 0.7 else ["c", rng.choice([0, 1, 2, 5, {"s": 1}])]
+
+    def operand():
+        # mostly names and literals; sometimes a parenthesised and / or / not group, whose VALUE (the deciding
+        # operand, not a bool) is what gets compared
+        r2 = rng.random()
+        if r2 < 0.8:
+            return atom()
+        if r2 < 0.9:
+            return [rng.choice(["and", "or"]), [atom(), atom()]]
+        if r2 < 0.95:
+            return [rng.choice(["and", "or"]), [atom(), atom(), atom()]]
+        return ["not", atom()]
     return ["cmp", operand(), [[rng.choice(list(OPS)), operand()] for _ in range(n)]]
 
 
@@ -266,11 +278,25 @@ def run_impl(sc):
         except Exception as e:  # noqa: BLE001
             return {"construct": "other:" + type(e).__name__}
         steps = []
+        late = None
+        if sc.get("late_twin"):
+            # a listener attached later that has (as plain attributes) every name the guard entries use: each
+            # entry is then one more conjunct, evaluated on the late listener's own values
+            late = type("Late", (), {})()
+            for n in sc["provide"]:
+                setattr(late, NAMES[int(n)], None)
+            try:
+                sm.add_listener(late)
+            except Exception as e:  # noqa: BLE001
+                return {"construct": "other_late:" + type(e).__name__}
         for env in sc["envs"]:
-            ENV = {int(k): v for k, v in env.items()}
+            ENV = {int(k): v for k, v in env.items() if int(k) < 100}
             for n in range(len(NAMES)):
                 ENV.setdefault(n, None)
             set_attrs(sc, (sm, model, lst))
+            if late is not None:
+                for n in sc["provide"]:
+                    setattr(late, NAMES[int(n)], pyv(env[str(int(n) + 100)]))
             del LOG[:]
             try:
                 sm.send("go")
@@ -291,8 +317,30 @@ def run_impl(sc):
                     refc = 1 if bool(ref) == expected else 0
                 except TypeError:
                     refc = 2
+            if late is not None:
+                for canon, expected in sorted([(sc["canon"], sc["expected"])] + ([(sc["second"]["canon"], sc["second"]["expected"])] if sc.get("second") else []),
+                                              key=lambda ce: not ce[1]):
+                    if refc != 1:
+                        break
+                    try:
+                        ref = eval(canon, {"__builtins__": {}},  # noqa: S307
+                                   {NAMES[int(n)]: pyv(env[str(int(n) + 100)]) for n in sc["provide"]})
+                        refc = 1 if bool(ref) == expected else 0
+                    except TypeError:
+                        refc = 2
             steps.append({"impl": out, "reads": list(LOG), "ref": refc})
-        return {"construct": "ok", "steps": steps}
+        # a further instance of the same class whose model and listener provide none of the names: every
+        # instantiation is checked, so when a guard name lives on the model / listener only this one is refused
+        second = None
+        if any(prov in (1, 2) for prov, _how in sc["provide"].values()):
+            try:
+                MM(type("Bare", (), {"state": None})(), listeners=[type("BareL", (), {})()])
+                second = "accepted"
+            except InvalidDefinition:
+                second = "idef"
+            except Exception as e:  # noqa: BLE001
+                second = "other:" + type(e).__name__
+        return {"construct": "ok", "steps": steps, "second_instance": second}
 
 
 DRIVER_ERR = {"construct": "driver"}
@@ -339,6 +387,8 @@ def coq_case(sc, obs):
         return f"(mal {1 if obs.get('construct') == 'idef' else 0})"
     if obs.get("construct") != "ok":
         return "(mal 0)"
+    if obs.get("second_instance") not in (None, "idef"):
+        return "(mal 0)"
     logged = [int(n) for n, (p, how) in sc["provide"].items() if how in ("property", "method", "aw_object", "aw_future")]
     steps = []
     for env, s in zip(sc["envs"], obs["steps"]):
@@ -346,6 +396,18 @@ def coq_case(sc, obs):
         steps.append(f"st {ev} {s['impl']} [{'; '.join(map(str, s['reads']))}] {s['ref']}")
     entries = [(sc["ast"], sc["expected"])] + ([(sc["second"]["ast"], sc["second"]["expected"])] if sc.get("second") else [])
     entries.sort(key=lambda e: not e[1])          # cond entries are registered before unless entries
+    if sc.get("late_twin"):
+        def ren(e):
+            if e[0] == "n":
+                return ["n", e[1] + 100]
+            if e[0] == "c":
+                return e
+            if e[0] == "not":
+                return ["not", ren(e[1])]
+            if e[0] in ("and", "or"):
+                return [e[0], [ren(x) for x in e[1]]]
+            return ["cmp", ren(e[1]), [[op, ren(x)] for op, x in e[2]]]
+        entries = entries + [(ren(a_), x_) for a_, x_ in entries]      # the late listener's copies come last
     es = "[" + "; ".join(f"({cq_expr(a)}, {b(x)})" for a, x in entries) + "]"
     isasync = bool(sc.get("async_engine"))
     return (f"(wf ({es}, [{'; '.join(map(str, logged))}], {b(isasync)}, {b(not isasync)}, "
@@ -427,7 +489,13 @@ def gen_case(rng, depth):
             if flat(a2) == flat(a):
                 del sc["second"]
     sc["via_any"] = rng.random() < 0.25
-    if rng.random() < 0.3 and not cmpy and not (sc.get("second") and has_cmp(sc["second"]["ast"])):
+    if rng.random() < 0.2:
+        sc["late_twin"] = True
+        for env in envs:
+            for n in list(provide):
+                env[str(int(n) + 100)] = rng.choice(CMP_VALUES + [None] if (cmpy or (sc.get("second") and has_cmp(sc["second"]["ast"]))) else VALUES)
+    if (rng.random() < 0.3 and not cmpy and not (sc.get("second") and has_cmp(sc["second"]["ast"]))
+            and not sc.get("late_twin")):
         sc["async_engine"] = True      # (comparisons may raise TypeError, whose fate among several
                                        #  concurrently evaluated guards is left open)
         # a guard that is one bare name may hand back an awaitable which is not a coroutine object (inside
